@@ -109,6 +109,13 @@ func (c *tapConn) Write(p []byte) (int, error) {
 	return total, nil
 }
 
+// The muxer arms a 120 s read deadline before every segment (slow-loris guard). That
+// guard is wall-clock behaviour outside C09/C10/C13; on a loaded machine or under the
+// race detector a case can leave one direction idle for longer, so the harness
+// connection never lets a deadline fire.
+func (c *tapConn) SetReadDeadline(time.Time) error { return nil }
+func (c *tapConn) SetDeadline(time.Time) error     { return nil }
+
 func (c *tapConn) ReadLog() []byte {
 	c.mu.Lock()
 	defer c.mu.Unlock()
@@ -346,12 +353,46 @@ func stallChan(patience time.Duration, progress progressFn) (<-chan struct{}, fu
 				}
 			}
 			if time.Now().After(deadline) {
+				// Nothing observable moved. Before calling it a stall make sure nobody is
+				// merely starved of CPU (race detector, loaded machine, GOMAXPROCS=1): a
+				// goroutine of the library or the harness that is runnable or running is
+				// work in progress, not a hang.
+				if activeGoroutines() > 0 {
+					deadline = time.Now().Add(patience / 2)
+					continue
+				}
 				close(ch)
 				return
 			}
 		}
 	}()
 	return ch, func() { once.Do(func() { close(quit) }) }
+}
+
+// activeGoroutines counts goroutines that have a frame in the library or in this
+// package and are runnable or running (the caller excluded).
+func activeGoroutines() int {
+	buf := make([]byte, 2<<20)
+	n := runtime.Stack(buf, true)
+	blocks := strings.Split(string(buf[:n]), "\n\n")
+	active := 0
+	for i, b := range blocks {
+		if i == 0 {
+			continue // the calling goroutine is listed first
+		}
+		nl := strings.IndexByte(b, '\n')
+		if nl < 0 {
+			continue
+		}
+		head := b[:nl]
+		if !strings.Contains(head, "[runnable") && !strings.Contains(head, "[running") {
+			continue
+		}
+		if strings.Contains(b, "gouroboros/") || strings.Contains(b, "props/mux.") || strings.Contains(b, "fxamacker/") {
+			active++
+		}
+	}
+	return active
 }
 
 // waitCond polls cond until it holds; gives up when abort is closed or no
